@@ -160,6 +160,31 @@ def main(tier):
                                                                              "calls": calls, "expected_calls": want, "implementation": o[:400]})
             else:
                 run.nontriv(("spgroups", src))
+        # ---------- (2e') several stream parsers, the earlier ones reading ahead and declining with a nil result: the later one starts where the
+        #            operand starts; and values the host serves as globals read through every load path
+        for tpl in ctx_templates[:20]:
+            n = r.randint(0, 999)
+            src = tpl.replace("{T}", f"#{n}")
+            a_ = go_child(line_timeout=20).run([f"custom -,L30000 {1:032x} sphash {hx(src)}", f"custom -,L30000 {1:032x} spnil:3,spnil:1,sphash {hx(src)}"])
+            run.evaluations += 1
+            if strip_calls(a_[0]) != strip_calls(a_[1]) or re.search(r" calls=(\S+)", a_[0]).group(1) != re.search(r" calls=(\S+)", a_[1]).group(1):
+                run.violation("declining-stream-parser-shifts-the-next-one", {"source": src, "with_declining_parsers_first": a_[1][:400], "alone": a_[0][:400]})
+            else:
+                run.nontriv(("spnil", src))
+        import json as _json2
+        gdoc2 = "gjson:" + hx(_json2.dumps({"力量": {"t": 0, "v": 60}, "gcv": {"t": 5, "v": {"expr": "力量 + 1"}}, "gfn": {"t": 8, "v": {"expr": "pa * 2", "name": "gfn", "params": ["pa"]}}}, ensure_ascii=False))
+        hp = ["gcv", "load('gcv')", "load('力量') + load('gcv')", "dd = {}; dd.k = gcv; dd.k", "dd = {'q': 1}; dd.q = gcv + dd.q; dd.q", "[gcv][0]", "`{gcv}`", "loadRaw('gcv')", "gfn(gcv)",
+              "load('gfn')(2)", "x = load('gcv'); x + gcv", "this.y = gcv; y", "func f(){ load('gcv') }; f()", "&lc = load('gcv') + 1; lc"]
+        ho = go_child(line_timeout=20).run([f"custom -,L30000 {1:032x} {gdoc2} {hx(pp)}" for pp in hp] + [f"custom -,L30000 {1:032x} {gdoc2},hooks {hx(pp)}" for pp in hp])
+        for i, pp in enumerate(hp):
+            run.evaluations += 1
+            for o in (ho[i], ho[len(hp) + i]):
+                if o.startswith(("panic", "died")):
+                    run.violation("host-served-value-crashes-a-load-path", {"program": pp, "host_globals": "力量 = 60, gcv = computed `力量 + 1`, gfn = function", "implementation": o[:400]})
+            if strip_calls(ho[i]).split(" ops=")[0] != strip_calls(ho[len(hp) + i]).split(" ops=")[0]:
+                run.violation("extension-not-transparent", {"source": pp, "registered": "identity hooks + host globals", "plain": ho[i][:400], "with_extensions": ho[len(hp) + i][:400]})
+            else:
+                run.nontriv(("hostload", pp))
         # ---------- (2f) a load hook that RENAMES (strips the prefix 困难): the program with prefixed names means what the program with the
         #            plain names means — for script variables, names served by the host's global table, and builtins
         import json as _json
